@@ -432,6 +432,11 @@ class Body:
                     keep_pt = True
                 root, path = root.args[0], root.args[1] + path
                 continue
+            if root.kind == 'agg' and isinstance(path[0], str) and path[0].startswith('as:') and root.extra.get('variant') and root.extra['variant'].get('name') == path[0][3:]:
+                path = path[1:]         # downcast to the variant the aggregate was built with
+                if not path:
+                    return root
+                continue
             if root.kind == 'agg' and path[0] != '*' and isinstance(path[0], str):
                 e = root.extra
                 idx = None
